@@ -84,6 +84,7 @@ def check_case(case, ctx):
         tree = dsl.with_reference(tree, case['ref']) or tree
         if tree is not case['tree']:
             ctx.count('with_backreference_or_conditional')
+    tree = dsl.entangle(tree, case.get('entangle'))
     variants = [('drawn', tree)] + [(h, respell(tree, h)) for h in ('class', 'method', 'alt')]
     first = None
     for how, t in variants:
@@ -121,6 +122,7 @@ def strategy(spec, ctx):
         'tree': st.one_of(*[dsl.tree_strategy(feats, max_leaves=spec.get('max_leaves', 6))] * 5, dsl.hostile_tree(5), dsl.deep_tree_strategy(feats)),
         'tseed': st.integers(0, 2 ** 20),
         'ref': dsl.refspec_strategy(feats),
+        'entangle': dsl.entangle_strategy(),
     })
 
 
